@@ -92,7 +92,8 @@ FORMS = [
     ("button", "Z = BUTTON( {0} )"), ("button_e", "Z = BUTTON( {0} ) + 1"), ("point", "Z = POINT( {0} , {1} )"), ("point_e", "Z = POINT( {0} , {1} ) * 2"), ("joystk", "Z = JOYSTK( {0} ) + 1"),
     ("inkey", "Z$ = INKEY$"), ("inkey_e", 'Z$ = INKEY$ + "!"'),
 ]
-SHAPES = ["lit", "var", "elem", "sum", "conv"]
+SHAPES = ["lit", "var", "elem", "sum", "conv", "hex"]
+HEXLITS = ["&H8000", "&H7FFF", "&HFFFF", "&H8001", "&H1F", "&HFF", "&H0"]
 SSHAPES = [("lit", '"TXT"'), ("var", "S$"), ("cat", 'S$ + "!"')]
 
 
@@ -106,6 +107,8 @@ def operand(shape, i):
         return f"M({i + 1})", [f"M({i + 1})={val}"]
     if shape == "sum":
         return f"P{i} + 1", [f"P{i}={val - 1}"]
+    if shape == "hex":
+        return HEXLITS[i % len(HEXLITS)], []
     return f"INT( Q{i} )", [f"Q{i}={val}.5"]
 
 
@@ -330,6 +333,18 @@ def gen(run):
                 nctx += 1
     run.states += nctx
     run.transitions += nctx
+    # the buffer prologue under every option set: present exactly when the program uses HBUFF
+    progs = [("hbuff", "10 HBUFF 1,10\n20 HGET(0,0)-(9,9),1\n30 HPUT(20,20)-(29,29),1,PSET\n", True), ("hbuff-in-then", "10 A=1:IF A=1 THEN HBUFF 2,20\n", True),
+             ("hget-only", "10 HGET(0,0)-(9,9),1\n", False), ("no-buffer", "10 CLS 3:HSCREEN 2:HCLS 1\n", False), ("hbuff-in-rem", "10 REM HBUFF 1,10\n20 A$=\"HBUFF\":CLS\n", False)]
+    keys = ["add_suffix", "initialize_vars", "filter_unused_linenum", "default_width32", "skip_procedure_headers", "output_dependencies"]
+    for pname, text, has in progs:
+        for bits in itertools.product([False, True], repeat=len(keys)):
+            o = dict(zip(keys, bits))
+            if o["output_dependencies"]:
+                o["procname"] = "p"
+            cases.append({"text": text, "opts": o, "hbuff": has, "features": {"prologue-options", "prog:" + pname}, "origin": f"prologue {pname} {sorted(k for k, v in o.items() if v is True)}", "prologue_only": True})
+    run.states += len(progs) * 2 ** len(keys)
+    run.transitions += len(progs) * 2 ** len(keys)
     # speed pokes (literal addresses only)
     for a in ("65496", "65497", "&HFFD8", "&HFFD9", "65495", "65498"):
         for val in ("0", "1", "V"):
@@ -369,8 +384,27 @@ def gen(run):
     return cases
 
 
+def judge_prologue(text, opts, has_hbuff):
+    """textual rule, valid under every option set that keeps the standard prefix: `dim pid` and RUN _ecb_init_hbuff(pid) are in
+    the user's procedure exactly when the source uses HBUFF"""
+    r = tool.convert(text, **opts)
+    if not r.ok:
+        return [("device-statement-refused", r.kind)]
+    body = r.text.replace("\r\n", "\n").replace("\r", "\n")
+    idx = [m.start() for m in re.finditer(r"(?im)^procedure\s", body)]
+    if idx:
+        body = body[idx[-1]:]
+    init = bool(re.search(r"(?im)^\s*(?:\d+\s+)?RUN\s+_ecb_init_hbuff\s*\(\s*pid\s*\)", body))
+    dim = bool(re.search(r"(?im)^\s*dim\s+pid\s*:\s*integer", body))
+    v = []
+    if init != has_hbuff or dim != has_hbuff:
+        v.append(("hbuff-prologue", f"options {sorted(k for k, x in opts.items() if x is True)}: RUN _ecb_init_hbuff {'present' if init else 'absent'}, dim pid {'present' if dim else 'absent'} "
+                                    f"for a program {'with' if has_hbuff else 'without'} HBUFF"))
+    return v
+
+
 def work(chunk):
-    return [judge(c["text"], c["opts"], c["hbuff"]) for c in chunk]
+    return [judge_prologue(c["text"], c["opts"], c["hbuff"]) if c.get("prologue_only") else judge(c["text"], c["opts"], c["hbuff"]) for c in chunk]
 
 
 def run(run):
@@ -391,9 +425,11 @@ def run(run):
             if i % 400 == 1:
                 run.sample({"program": c["text"], "origin": c["origin"], "verdicts": [x[0] for x in verdicts]})
             for sym, detail in verdicts:
-                run.violation(sym, c["features"], {"text": c["text"], "opts": c["opts"], "hbuff": c["hbuff"]}, f"{c['origin']}: {detail}\nsource: {c['text']!r}")
+                run.violation(sym, c["features"], {"text": c["text"], "opts": c["opts"], "hbuff": c["hbuff"], "prologue_only": bool(c.get("prologue_only"))}, f"{c['origin']}: {detail}\nsource: {c['text']!r}")
     run.distinct_n = decided
 
 
 def replay(case):
+    if case.get("prologue_only"):
+        return {"violations": [list(x) for x in judge_prologue(case["text"], case["opts"], case["hbuff"])]}
     return {"violations": [list(x) for x in judge(case["text"], case["opts"], case["hbuff"])]}
